@@ -94,6 +94,19 @@ def solve_setups(rng, n, quick):
             alpha=rng.choice([1, 1, 0.5]), shots=64,
             optimizer=["coordinate", "coordinate", "coordinate", "spsa", "nft", "coordinate"][k % 6] if k < 12 else rng.choice(["coordinate", "coordinate", "spsa", "nft"]),
         ))
+    # the bitstring path with NON-dyadic numbers (the others use 64 shots and dyadic weights, whose sums are exact in
+    # double precision whatever the order): 100 / 37 shots, weights like 0.1 / -0.3 / 0.7, three qubits and randomised
+    # two-layer individuals, so that a distribution has several states and the order in which probability * value is
+    # accumulated shows in the last bits — across child processes with different PYTHONHASHSEED in particular
+    nondy = []
+    for j in range(2 if quick else 6):
+        nondy.append(dict(
+            n_qubits=3 if j % 2 == 0 else 2, evaluator="bitstring", population_size=2 + j % 2, mutex=(j % 3 == 1), tournament=(j % 2 == 1),
+            tournament_size=2 if j % 2 == 1 else None, seed=[7, 42, 123456789, 5, 99, 2**40 + 3][j], n_initial_layers=2, randomize=True,
+            p_param=[0.5, 1.0, 0.25][j % 3], p_topo=0.5, p_remove=[0.0, 0.5][j % 2], distance=2, max_generations=1 + j % 2, aux=[None, "dict3", "list"][j % 3],
+            coeffs=[[0.1, -0.3, 0.7, 0.45], [-0.7, 0.3, 0.1, 1.1], [0.3, 0.3, -0.1, 0.9]][j % 3], alpha=[1, 0.5, 0.3][j % 3], shots=[100, 37, 1000][j % 3],
+            optimizer=["coordinate", "nft", "coordinate"][j % 3]))
+    out = nondy + out
     # configurations with exactly ONE seeded optimiser run per solve (one individual, one generation) and an optimiser
     # that draws from qiskit's global algorithm_globals generator: the last optimiser seed of one solve is the first
     # of its immediate repetition, so a seed that is not re-applied leaves the second solve on leftover state
